@@ -36,6 +36,11 @@ def check(model: Model, rep: Report, tier: str):
         a4(model, rep)
     with rep.isolated():
         a5(model, rep, "C07.A5")
+    with rep.isolated():
+        a9(model, rep, "C07.A9")
+    from .c05 import k10
+    with rep.isolated():
+        k10(model, rep, "C07.A10")
     from .c05 import check_registry_copy
     rep.rule("C07.A6", "copies re-target their acquisition registry through the lookup (= C05.K6) and every sub-circuit handed to add() takes the copying path (= C02.L7)")
     with rep.isolated():
@@ -48,6 +53,45 @@ def check(model: Model, rep: Report, tier: str):
         share_rule(rep, model, _k1_k2, "C07.A6", rep.rules_text["C07.A6"], only_rules=None)
     rep.rules_text["C07.A6"] = ("copies re-target their acquisition registry through the lookup (= C05.K6), keep tag and strategy (= C05.K1) and every sub-circuit "
                                 "handed to add() takes the copying path (= C02.L7)")
+
+
+def a9(model: Model, rep: Report, rule: str):
+    """Measurements index the structure OBJECT they were created against: unrolling / flattening through the front end must keep that object."""
+    rep.rule(rule, "DeclarativeCircuit.apply_modifiers / flatten hand back a circuit whose structure is the SAME object the measurements' registries index: self itself, or "
+                   "a circuit whose _structure is self._structure / the result of an in-place method of it that returns its receiver -- a rebuilt structure holding the old "
+                   "operations leaves their registries on the discarded nesting")
+    from .common import returns_receiver
+    D = model.cls("DeclarativeCircuit")
+    K = model.cls("CircuitCompositeOperation")
+    for name in ("apply_modifiers", "flatten"):
+        f = D.resolve(name)
+        if f is None:
+            raise AnalysisError(f"DeclarativeCircuit.{name} vanished")
+        ev = Evaluator(model, inline_methods=False)
+        ps = PathEnumerator(ev).function_paths(f, self_cls=D)
+        s = sym(f.self_name)
+        live = ("attr", s, "_structure")
+        n = 0
+        for p in ps:
+            if p.exit != "return":
+                continue
+            n += 1
+            v = p.value
+            found = show(v) if v is not None else "None"
+            ok = False
+            if v == s:
+                # in place: any rebinding of self._structure must keep the object
+                sts = [e.term for e in p.events if e.kind == "store" and e.term[2] == "_structure" and e.term[1] == s]
+                ok = all(returns_receiver(model, ev, t[3], live, cls=K) for t in sts)
+                found = "self; " + ("; ".join(show(t[3]) for t in sts) or "structure not rebound")
+            elif v is not None and v[0] == "new" and v[1] == "DeclarativeCircuit":
+                st = dict(v[2]).get("_structure")
+                ok = st is not None and returns_receiver(model, ev, st, live, cls=K)
+                found = f"new circuit with _structure = {show(st) if st is not None else 'a fresh structure'}"
+            rep.check(ok, rule, f"DeclarativeCircuit.{name}[same structure object]", f.loc, found=found[:300], required="the structure object of self (changed in place)",
+                      what=f"{name}() returns a circuit built on another structure object than the one the measurements' acquisition registries index: their indices are computed "
+                           "on the discarded nesting (wrong order or -1)", detail=f"same-object:{name}")
+        rep.floor(f"return paths of DeclarativeCircuit.{name}", n, 1)
 
 
 # ---------------------------------------------------------------------------------------------
@@ -397,4 +441,4 @@ def a5(model: Model, rep: Report, rule: str):
                         ok = same_obj and (circ == ts[3] or circ == ("attr", ts[1], "_structure"))
                 rep.check(ok, rule, construct, f.loc, found=found, required="<obj>._acquisition_registry = AcquisitionRegistry(circuit=<the structure just bound>)",
                           what="the circuit's acquisition registry indexes a different (discarded) structure: measurements created against it report -1", detail="pairing")
-    rep.floor("paths binding DeclarativeCircuit._structure", n, 3)
+    rep.floor("paths binding DeclarativeCircuit._structure", n, 1)
